@@ -44,8 +44,7 @@ def _ggm_trace(out, pid, seed, runs, steps):
                       + json.dumps(rej)[:1500],
             "replay": {"trace": tr, "rejected": rej},
             "cmd": ["ggm-record", "--out", tr, "--seed", str(seed), "--runs", str(runs), "--steps", str(steps)]})
-    else:
-        out.traces += runs
+        out.traces -= min(out.traces, runs)   # recorded but not accepted
 
 
 @check("C10")
@@ -90,4 +89,52 @@ def c11(tier, seed):
     out.add_vh(run_vh(["ggm-export", "--seed", seed, "--runs", 16 if thorough else 6,
                        "--steps", 256 if thorough else 40]), only={"C11"})
     _ggm_trace(out, "C11", seed + 1, 8 if thorough else 3, 256 if thorough else 80)
+    return out
+
+
+def _trace_check(out, pid, module, cfg, tr, cmd, ntraces, label):
+    res, rej = validate_trace(module, cfg, tr, tag=pid + "-tv")
+    out.states += res.states
+    out.transitions += max(res.generated - 1, 0)
+    out.extra.setdefault("trace_validation", []).append(
+        {"spec": module, "events": sum(1 for _ in open(tr)), "accepted": rej is None, "wall_s": round(res.wall, 1)})
+    if rej is not None:
+        evname = str(rej.get("ev", {}).get("ev", rej.get("invariant"))) if isinstance(rej.get("ev", {}), dict) else "?"
+        out.violations.append({
+            "property": pid, "site": module, "input_class": "trace-rejected:" + evname,
+            "detail": f"recorded {label} is not a behaviour of the specification; first unmatched event: "
+                      + json.dumps(rej)[:1500],
+            "replay": {"trace": tr, "rejected": rej}, "cmd": [str(c) for c in cmd]})
+        out.traces -= min(out.traces, ntraces)   # recorded but not accepted
+
+
+def _srv_table(out, cfg, tag, workers=10, timeout=2400):
+    res = run_tlc("MC_PPOPRF", cfg, workers=workers, timeout=timeout, tags=("SRVSTATE",), tag=tag, heap="8g")
+    out.add_tlc(res, "MC_PPOPRF/" + cfg)
+    wd = workdir(tag + "-tbl")
+    path = os.path.join(wd, cfg + ".states.ndjson")
+    write_ndjson(path, res.lines.get("SRVSTATE", []))
+    if res.ok and not res.lines.get("SRVSTATE"):
+        raise ToolError("TLC emitted no state table for " + cfg)
+    return path
+
+
+@check("C14")
+def c14(tier, seed):
+    out = Outcome("C14", tier, seed, "model_checking")
+    thorough = tier == "thorough"
+    out.rule = ("TLC explores every history over {puncture(i,tag), clone(i), export+import(i), new independently keyed "
+                "server} up to the depth bound with <=3 instances (set-level VIEW) and emits each state's successor and "
+                "answer table; the harness performs a BFS with real ppoprf::Server instances, applying every transition "
+                "and observing every instance (eval of every tag x points x plain/verifiable, public key); "
+                "distinct = distinct state / (state, action) pair; random 200-step histories are validated by Trace_PPOPRF")
+    out.assumptions = [IDEAL, "answers are compared by value with the first answer seen for (key, tag, point)"]
+    cfg, depth = ("PPOPRF_t.cfg", 5) if thorough else ("PPOPRF_q.cfg", 4)
+    tbl = _srv_table(out, cfg, "C14")
+    out.add_vh(run_vh(["srv-replay", "--states", tbl, "--max-steps", depth], timeout=3000), only={"C14"})
+    wd = workdir("C14-trace")
+    tr = os.path.join(wd, "srv.ndjson")
+    cmd = ["srv-record", "--out", tr, "--seed", seed, "--runs", 12 if thorough else 4, "--steps", 200]
+    out.add_vh(run_vh(cmd), only={"C14"})
+    _trace_check(out, "C14", "Trace_PPOPRF", "Trace_PPOPRF.cfg", tr, cmd, 12 if thorough else 4, "server history")
     return out
